@@ -129,6 +129,8 @@ struct CountFormat {
   template <class Filter, class Out> static void RunFilter(util::FilePiece &in, Filter &filter, Out &output) {
     DispatchInput<Filter, Out> dispatcher(filter, output);
     ReadCount(in, dispatcher);
+    // Send the last partial batch when threaded.
+    filter.Flush();
   }
 };
 
